@@ -4,7 +4,7 @@ namespace CqlVerif.Drv.PrepStream
 open CqlVerif CqlVerif.Drv CqlVerif.Prepared
 
 def render : Reply → String
-  | .ok => "ok" | .prepared => "prepared" | .unprepared => "unprepared" | .proxyerr => "proxyerr"
+  | .ok => "ok" | .prepared => "prepared" | .unprepared => "unprepared" | .proxyerr => "proxyerr" | .err => "err"
 
 def handle (op real : String) : Verdict := Id.run do
   let toks := splitNE op " "
@@ -26,6 +26,7 @@ def handle (op real : String) : Verdict := Id.run do
       | 'x' => match arg.splitOn ":" with
         | [h, "err"] => h.toNat?.map (.failNext · .err)
         | [h, "drop"] => h.toNat?.map (.failNext · .drop)
+        | [h, "inv"] => h.toNat?.map (.failNext · .inv)
         | _ => none
       | 'a' => some .addHost
       | _ => none
@@ -37,6 +38,10 @@ def handle (op real : String) : Verdict := Id.run do
       | .execute k =>
         if s.cache k && realToks.getD outs.length "?" == "unprepared" then
           specBad := some s!"client saw UNPREPARED for statement {k}, which it had prepared through the proxy"
+        -- the only backend errors in this stream are answers to PREPAREs: one of them reaching the client in
+        -- answer to an EXECUTE means the re-prepare's failure was handed over instead of trying the next host
+        if s.cache k && realToks.getD outs.length "?" == "err" then
+          specBad := some s!"client got the error of the proxy's own re-PREPARE in answer to EXECUTE of statement {k}"
       | _ => pure ()
       let (r, s', hs) := Prepared.step s a
       s := s'
@@ -50,7 +55,7 @@ def handle (op real : String) : Verdict := Id.run do
   let model := " ".intercalate outs ++ " reprep=" ++ ",".intercalate rep
   let sig := s!"h{hosts}-n{outs.length}-rp{rep.length}"
   if let some w := specBad then
-    return { kind := "spec", sig, key := "C08:unprepared-to-client", detail := s!"{w}: {op} -> {real}" }
+    return { kind := "spec", sig, key := (if w.startsWith "client saw" then "C08:unprepared-to-client" else "C08:reprepare-error-to-client"), detail := s!"{w}: {op} -> {real}" }
   if realToks.any (· == "none") then
     return { kind := "spec", sig, key := "C08:unanswered", detail := s!"an EXECUTE/PREPARE was never answered: {op} -> {real}" }
   if model ≠ real then return { kind := "diff", sig, detail := model }
